@@ -5,6 +5,7 @@ import math
 from ..world import execute, cleanup
 from ..runner import Outcome, digest
 from ..gen_scopes import structure
+from ..patterns import tag_overtaken, OVERTAKEN_KEY
 
 ID = "C07"
 LEVEL = "exploration"
@@ -36,6 +37,29 @@ TECHNIQUE = "deterministic simulation, twin-run differential (until vs. Scope), 
 
 DELAYS = [0.25, 0.5, 1, 1.5, 2, 3]
 INF = math.inf
+F25_RULES = ("C07/block-never-ended", "C07/exit-time")
+# known finding F25, smallest history found by this check: both notifications hold on entry, the
+# outer interrupt arrives first and is lost when the inner one overtakes the clean-up handler
+F25_CASE = {"property": ID, "mode": "until", "plan": [], "config": {"waitq": "heap"}, "scenario": {
+    "resources": {}, "actors": [
+        {"name": "d2", "ops": []},
+        {"name": "u", "ops": [{"op": "sleep", "d": 2}, {
+            "op": "scope", "label": "S1", "subject": True, "children": [],
+            "until": {"k": "done", "task": "d2"},
+            "body": [{"op": "scope", "label": "S5", "children": [],
+                      "until": {"k": "time", "op": ">=", "t": 2},
+                      "body": [{"op": "finally", "body": [{"op": "sleep", "d": 1}],
+                                "handler": [{"op": "postpone", "k": 1}]}]},
+                     {"op": "eternity"}]}]}]}}
+
+
+def probe_finding(finding):
+    """Re-demonstrate a listed finding on the current tree (True if it still shows)."""
+    if finding["id"] != "F25":
+        return False
+    out = run_case(copy.deepcopy(F25_CASE))
+    return any(v["rule"] in F25_RULES and OVERTAKEN_KEY in v.get("key", "")
+               for v in out.violations)
 
 
 # ---- generator ----------------------------------------------------------------------------
@@ -119,6 +143,10 @@ class Gen:
                 ops.append({"op": "now"})
             elif depth < 2:
                 ops.append(self.scope(depth + 1, subject=False))
+        if ops and rng.random() < 0.08:
+            # clean-up that suspends (within the time step) while an exception passes through
+            ops = [{"op": "finally", "body": ops,
+                    "handler": [{"op": "postpone", "k": rng.randint(1, 2)}]}]
         return ops
 
     def scope(self, depth, subject):
@@ -414,6 +442,7 @@ def run_case(case):
             out.violations, info = check_till(rec, twin)
         else:
             out.violations, info = check_until(rec, twin)
+            tag_overtaken(rec, out.violations, F25_RULES)
         stats = {}
         nontrivial = False
         if case.get("mode") == "till":
